@@ -121,3 +121,48 @@ pub(crate) fn choose_contains_anchor(simd128: bool, needle_len: usize, random: u
     });
     position
 }
+
+// ---------------------------------------------------------------------------------------
+// Pause points: let a harness hold one thread at a named point inside the engine so that a
+// particular interleaving of two threads can be produced deterministically.
+
+use std::sync::atomic::{AtomicU32, Ordering};
+
+/// pause point inside `panic_catcher_set_hook`: the installation has been decided
+pub const PAUSE_SET_HOOK_DECIDED: u32 = 1;
+/// pause point inside `panic_catcher_set_hook`: previous hook taken, new one not yet set
+pub const PAUSE_SET_HOOK_TAKEN: u32 = 2;
+
+static PAUSE_ARMED: AtomicU32 = AtomicU32::new(0);
+static PAUSE_HELD: AtomicU32 = AtomicU32::new(0);
+static PAUSE_RELEASE: AtomicU32 = AtomicU32::new(0);
+
+/// Arms pause point `id`: the next thread reaching it stops there until [`pause_release`].
+pub fn pause_arm(id: u32) {
+    PAUSE_RELEASE.store(0, Ordering::SeqCst);
+    PAUSE_ARMED.store(id, Ordering::SeqCst);
+}
+
+/// The pause point a thread is currently held at (0 = none).
+pub fn pause_held() -> u32 {
+    PAUSE_HELD.load(Ordering::SeqCst)
+}
+
+/// Releases the thread held at pause point `id`.
+pub fn pause_release(id: u32) {
+    PAUSE_RELEASE.store(id, Ordering::SeqCst);
+}
+
+/// Called by the engine at a pause point; returns at once unless `id` is armed.
+pub(crate) fn pause_point(id: u32) {
+    if PAUSE_ARMED
+        .compare_exchange(id, 0, Ordering::SeqCst, Ordering::SeqCst)
+        .is_ok()
+    {
+        PAUSE_HELD.store(id, Ordering::SeqCst);
+        while PAUSE_RELEASE.load(Ordering::SeqCst) != id {
+            std::thread::yield_now();
+        }
+        PAUSE_HELD.store(0, Ordering::SeqCst);
+    }
+}
